@@ -119,12 +119,12 @@ func expForm(r *rng.R, body string, ft *feats, allowRisky bool) string {
 		e = -len(fp)
 	}
 	E := "e"
-	if allowRisky && !ft.expPlus && r.P(1, 12) {
+	if allowRisky && r.P(1, 6) {
 		E = "E"
 		ft.upperE = true
 	}
 	es := strconv.Itoa(e)
-	if e >= 0 && allowRisky && !ft.upperE && r.P(1, 10) {
+	if e >= 0 && allowRisky && r.P(1, 5) {
 		es = "+" + es
 		ft.expPlus = true
 	}
